@@ -1613,13 +1613,13 @@ Definition tie (l : list nat) : list N :=
 """
 
 
-def link_sample(cases, outs_, per_profile=8):
+def link_sample(cases, outs_, per_profile=4):
     """Multi-fragment requests of the ble stream, a few per latency profile: (profile, latencies, order seen by the accessory)."""
     got, count = [], {}
     for c, o in zip(cases, outs_):
         lk = o["link"]
         n = len(lk["issued_sizes"])
-        if not (2 <= n <= 14) or count.get((c["link"], n > 3), 0) >= per_profile // 2:
+        if not (2 <= n <= 9) or count.get((c["link"], n > 3), 0) >= per_profile // 2:
             continue
         count[(c["link"], n > 3)] = count.get((c["link"], n > 3), 0) + 1
         lats = [link_latency(c["link"], k, sz, o["budget"], c["fs"] + len(c["body"])) for k, sz in enumerate(lk["issued_sizes"])]
@@ -1656,9 +1656,14 @@ def link_model_tie(ctx, sample):
     link driven directly both ways (the fake is the environment the implementation is judged in: it must be the modelled one)."""
     import re
     import re
-    lists = "; ".join("[" + "; ".join(str(x) for x in smp["lats"]) + "]" for smp in sample)
-    out = coq_eval(ctx["verif"], "C17", "linktie", LINK_PRELUDE + f"Eval vm_compute in (flat_map tie [{lists}]).\n", timeout=300)
-    nums = [int(x) for x in re.findall(r"\d+", re.split(r"^\s*= ", out, flags=re.M)[-1].rsplit(":", 1)[0])]
+    evals = []
+    for i in range(0, len(sample), 4):         # short result lists: Coq's printer is superlinear in the length of a list literal
+        lists = "; ".join("[" + "; ".join(str(x) for x in smp["lats"]) + "]" for smp in sample[i:i + 4])
+        evals.append(f"Eval vm_compute in (flat_map tie [{lists}]).")
+    out = coq_eval(ctx["verif"], "C17", "linktie", LINK_PRELUDE + "\n".join(evals) + "\n", timeout=300)
+    nums = []
+    for blk in re.split(r"^\s*= ", out, flags=re.M)[1:]:
+        nums += [int(x) for x in re.findall(r"\d+", blk.rsplit(":", 1)[0])]
     blocks, cur = [], []
     for x in nums:
         if x == 888:
@@ -1833,7 +1838,7 @@ def _run(ctx, tier, seed):
                      ble_link_x_wwr_x_multi=f"{c['link']}/{'wwr' if 'write-without-response' in c['props'] else 'ack'}/{c['mode']}/"
                                             f"{'multi' if len(o['writes']) > 1 else 'single'}")
 
-    link_smp = link_sample(ble_cases, outs)
+    link_smp = link_sample(ble_cases, outs, 4 if tier == "quick" else 12)
 
     # ---- ble histories on one real client object
     hist_cases = gen_ble_hist(tier, rng(seed, "c17hist"))
